@@ -81,13 +81,17 @@ def fcgiReadRecord (st : FcgiSt) (body : Bytes) : RecRes × FcgiSt :=
   | (some (.error e), st) => (.err e, st)
   | (some (.ok hb), st) =>
     let h := parseFcgiHdr hb
-    let rec_size := h.contentLength + h.paddingLength
+    -- computed in the declared type of `rec_size` (regenerated): a narrow type wraps
+    let rec_size := Gen.fcgiRecSizeAsync h.contentLength h.paddingLength
     if rec_size == 0 then (.got h body, st)
     else
       match fcgiFill (rec_size + 1) rec_size { st with bodyAlloc := true } with
       | (none, st) => (.crash "read into full cache", st)
       | (some (.error e), st) => (.err e, st)
-      | (some (.ok rb), st) => (.got h (body ++ rb.take h.contentLength), st)
+      | (some (.ok rb), st) =>
+        -- `on_body_read`: `body_.resize(body_.size() - header_.padding_length)` in `size_t`
+        if rec_size < h.paddingLength then (.crash "on_body_read: body_.resize(body_.size() - padding_length) wraps", st)
+        else (.got h (body ++ rb.take (rec_size - h.paddingLength)), st)
 
 /-- how the protocol state machine gets its records: from the buffer-level connection state
 (`bufReader`) or, in the specification, from a plain byte stream (`flatReader`) -/
